@@ -383,7 +383,7 @@ type RacePassConfig struct {
 }
 
 func (cfg RacePassConfig) withDefaults(quick bool) RacePassConfig {
-	d := RacePassConfig{Reps: 3, TargetRuns: 30000, MaxReps: 100, MaxScenarios: 10000, Budget: 25 * time.Second}
+	d := RacePassConfig{Reps: 2, TargetRuns: 15000, MaxReps: 60, MaxScenarios: 10000, Budget: 25 * time.Second}
 	if !quick {
 		d = RacePassConfig{Reps: 6, TargetRuns: 150000, MaxReps: 200, MaxScenarios: 25000, Budget: 140 * time.Second}
 	}
